@@ -155,12 +155,35 @@ def run_panel(scs, name="panel", procs=None, use_cache=True, tlc_timeout=1200):
         "stats": {"runs": len(scs), "events": n_lines, "t_run": round(t_run, 1),
                   "t_tlc": round(t_tlc, 1), "tlc_states": tl.states_generated,
                   "tlc_distinct": tl.distinct_states, "run_times": [round(r[5], 2) for r in results]},
-        "trace_path": tpath,
+        "trace_path": None,
         "cached": False,
     }
     with open(cpath, "wb") as fh:
         pickle.dump(res, fh)
+    # housekeeping: the validated trace is reproducible from the scenarios; keep the caches bounded
+    for f in (tpath, opath):
+        try:
+            os.remove(f)
+        except OSError:
+            pass
+    _prune(cdir, 120)
+    _prune(os.path.join(CACHE, "tlc"), 12, dirs=True)
     return res
+
+
+def _prune(d, keep, dirs=False):
+    import shutil
+    try:
+        ents = [os.path.join(d, f) for f in os.listdir(d)]
+        ents.sort(key=lambda p: os.path.getmtime(p), reverse=True)
+        for p in ents[keep:]:
+            if os.path.isdir(p):
+                if dirs:
+                    shutil.rmtree(p, ignore_errors=True)
+            else:
+                os.remove(p)
+    except OSError:
+        pass
 
 
 TRACE_CFG = """SPECIFICATION TSpec
